@@ -56,8 +56,10 @@ const (
 	callWait = 60 * time.Second
 	inf      = 99 // the specification's stand-in for MaxUint64 in read requests
 
-	// Known finding: when nothing is committed (cap 0) readLocalCommitted hands MaxSeq 0 to the
-	// store, which both stores read as "no cap".
+	// Finding fixed in /repo by 8a300f740 (status "fixed" in known-findings.json, so a
+	// reproduction is a fresh violation): when nothing is committed (cap 0) readLocalCommitted
+	// handed MaxSeq 0 to the store, which both stores read as "no cap".  The shape is still
+	// recognised and named, and scriptedSchedules replays the original reproduction.
 	sigCapZero = "C10:committed-cap-zero-passed-to-store-as-unbounded"
 
 	// Known finding: Service.ReadChannelLastVisible answers with the newest DURABLE row: no
@@ -637,6 +639,95 @@ func expectedState(st any) any {
 	return m
 }
 
+// scriptedSchedules are fixed regression schedules replayed in every run, before TLC's
+// behaviours, on both stores (same step format, expected values written out by hand):
+//
+//	cap-zero      the reproduction of C10:committed-cap-zero-passed-to-store-as-unbounded:
+//	              MinISR 2, two durable rows, nothing committed or checkpointed; forward from 0,
+//	              latest and SyncMessages pages must be empty; after the follower acknowledged
+//	              row 1 (HW 1, checkpoint still 0) the service layer still shows nothing, the
+//	              conversation head shows row 1.
+//	last-visible  the reproduction of C10:last-visible-read-ignores-committed-cap (known).
+//	floor-vs-cap  a boundary adopted above the committed watermark: floor above cap, nothing
+//	              visible, nothing trimmed; then commit + checkpoint + trim in two requests.
+func scriptedSchedules() []kit.Behaviour {
+	type step = kit.Step
+	st := func(leo, hw, ckpt, ret, local, phys uint64, rows, bars []uint64) map[string]any {
+		if rows == nil {
+			rows = []uint64{}
+		}
+		if bars == nil {
+			bars = []uint64{}
+		}
+		return map[string]any{"leo": leo, "hw": hw, "ckpt": ckpt, "ret": ret, "local": local, "phys": phys, "rows": rows, "bars": bars}
+	}
+	none := map[string]any{"seqs": []uint64{}, "bars": []uint64{}}
+	seqs := func(q ...uint64) map[string]any { return map[string]any{"seqs": q, "bars": []uint64{}} }
+	svc := func(from, mx uint64, lim int, rev bool, res map[string]any) map[string]any {
+		return kit.Ev("Read", "layer", "service", "from", from, "mn", 0, "mx", mx, "lim", lim, "rev", rev, "res", res)
+	}
+	var out []kit.Behaviour
+	for _, kind := range []string{"memory", "messagedb"} {
+		init := step{Ev: map[string]any{"a": "Init", "cfg": map[string]any{"store": kind, "isr": []uint64{1, 2}, "minISR": 2}}}
+		s2 := st(2, 0, 0, 0, 0, 0, []uint64{1, 2}, nil)
+		s2h := st(2, 1, 0, 0, 0, 0, []uint64{1, 2}, nil)
+		out = append(out, kit.Behaviour{Steps: []step{init,
+			{Ev: kit.Ev("Append", "kind", "msg", "res", map[string]any{"seq": 1}), St: st(1, 0, 0, 0, 0, 0, []uint64{1}, nil)},
+			{Ev: kit.Ev("Append", "kind", "msg", "res", map[string]any{"seq": 2}), St: s2},
+			{Ev: svc(0, 0, 10, false, none), St: s2},
+			{Ev: svc(0, inf, 10, false, none), St: s2},
+			{Ev: svc(1, inf, 10, false, none), St: s2},
+			{Ev: svc(inf, inf, 10, true, none), St: s2},
+			{Ev: svc(2, 2, 10, true, none), St: s2},
+			{Ev: kit.Ev("Sync", "mode", "down", "start", 0, "end", 0, "lim", 5, "res", map[string]any{"seqs": []uint64{}}), St: s2},
+			{Ev: kit.Ev("Sync", "mode", "up", "start", 0, "end", 3, "lim", 5, "res", map[string]any{"seqs": []uint64{}}), St: s2},
+			{Ev: kit.Ev("Head", "res", map[string]any{"found": false, "seq": 0, "committed": 0, "retention": 0}), St: s2},
+			{Ev: kit.Ev("Ack", "f", 2, "off", 1, "res", map[string]any{"hw": 1}), St: s2h},
+			{Ev: svc(0, 0, 10, false, none), St: s2h},
+			{Ev: svc(inf, inf, 10, true, none), St: s2h},
+			{Ev: kit.Ev("Head", "res", map[string]any{"found": true, "seq": 1, "committed": 1, "retention": 0}), St: s2h},
+		}})
+		out = append(out, kit.Behaviour{Steps: []step{init,
+			{Ev: kit.Ev("Append", "kind", "msg", "res", map[string]any{"seq": 1}), St: st(1, 0, 0, 0, 0, 0, []uint64{1}, nil)},
+			{Ev: kit.Ev("Append", "kind", "msg", "res", map[string]any{"seq": 2}), St: s2},
+			{Ev: kit.Ev("Ack", "f", 2, "off", 1, "res", map[string]any{"hw": 1}), St: s2h},
+			{Ev: kit.Ev("Last", "after", 0, "res", map[string]any{"found": true, "seq": 1}, "alt", map[string]any{"found": true, "seq": 2}), St: s2h},
+		}})
+		s3 := func(hw, ckpt, ret, local, phys uint64, rows []uint64) map[string]any {
+			return st(3, hw, ckpt, ret, local, phys, rows, nil)
+		}
+		all := []uint64{1, 2, 3}
+		out = append(out, kit.Behaviour{Steps: []step{init,
+			{Ev: kit.Ev("Append", "kind", "msg", "res", map[string]any{"seq": 1}), St: st(1, 0, 0, 0, 0, 0, []uint64{1}, nil)},
+			{Ev: kit.Ev("Append", "kind", "msg", "res", map[string]any{"seq": 2}), St: s2},
+			{Ev: kit.Ev("Append", "kind", "msg", "res", map[string]any{"seq": 3}), St: s3(0, 0, 0, 0, 0, all)},
+			{Ev: kit.Ev("Ack", "f", 2, "off", 1, "res", map[string]any{"hw": 1}), St: s3(1, 0, 0, 0, 0, all)},
+			// checkpoint lag: the boundary is adopted, the checkpoint follows, nothing is trimmed
+			{Ev: kit.Ev("Apply", "b", 1, "mt", 0, "res", map[string]any{"local": 1, "phys": 0, "deleted": 0, "through": 0}), St: s3(1, 1, 1, 1, 0, all)},
+			// a boundary above the committed watermark: floor 3 above cap 1
+			{Ev: kit.Ev("Apply", "b", 2, "mt", 0, "res", map[string]any{"local": 2, "phys": 0, "deleted": 0, "through": 0}), St: s3(1, 1, 2, 2, 0, all)},
+			{Ev: svc(0, 0, 10, false, none), St: s3(1, 1, 2, 2, 0, all)},
+			{Ev: svc(inf, inf, 10, true, none), St: s3(1, 1, 2, 2, 0, all)},
+			// a smaller boundary afterwards changes nothing but may trim what is covered
+			{Ev: kit.Ev("Apply", "b", 1, "mt", 0, "res", map[string]any{"local": 2, "phys": 1, "deleted": 1, "through": 1}), St: s3(1, 1, 2, 2, 1, []uint64{2, 3})},
+			{Ev: kit.Ev("Ack", "f", 2, "off", 3, "res", map[string]any{"hw": 3}), St: s3(3, 1, 2, 2, 1, []uint64{2, 3})},
+			{Ev: svc(0, 0, 10, false, none), St: s3(3, 1, 2, 2, 1, []uint64{2, 3})},
+			{Ev: kit.Ev("Apply", "b", 2, "mt", 0, "res", map[string]any{"local": 2, "phys": 1, "deleted": 0, "through": 0}), St: s3(3, 2, 2, 2, 1, []uint64{2, 3})},
+			{Ev: kit.Ev("Apply", "b", 2, "mt", 0, "res", map[string]any{"local": 2, "phys": 2, "deleted": 1, "through": 2}), St: s3(3, 2, 2, 2, 2, []uint64{3})},
+			{Ev: svc(inf, inf, 10, true, none), St: s3(3, 2, 2, 2, 2, []uint64{3})},
+			{Ev: kit.Ev("Head", "res", map[string]any{"found": true, "seq": 3, "committed": 3, "retention": 2}), St: s3(3, 2, 2, 2, 2, []uint64{3})},
+			{Ev: kit.Ev("Read", "layer", "store", "from", 0, "mn", 3, "mx", 3, "lim", 10, "rev", false, "res", seqs(3)), St: s3(3, 2, 2, 2, 2, []uint64{3})},
+		}})
+	}
+	for i := range out { // canonical JSON form, as behaviours loaded from a file
+		for j := range out[i].Steps {
+			out[i].Steps[j].Ev, _ = kit.Canon(out[i].Steps[j].Ev).(map[string]any)
+			out[i].Steps[j].St = kit.Canon(out[i].Steps[j].St)
+		}
+	}
+	return out
+}
+
 // ---- code -> spec ----------------------------------------------------------------------
 
 var isrChoices = [][]ch.NodeID{{1}, {1, 2}, {1, 2, 3}}
@@ -877,6 +968,9 @@ func TestVerifRetention(t *testing.T) {
 	if err != nil {
 		rep.Infra("load behaviours: %v", err)
 	}
+	scripted := scriptedSchedules()
+	replayAll(rep, worlds, scripted)
+	rep.Extra("scripted_schedules_replayed", len(scripted))
 	replayAll(rep, worlds, behs)
 
 	if os.Getenv("VERIF_C10_NO_DRIVER") == "" {
